@@ -470,6 +470,7 @@ static void run_line(char *line) {
 
 static void run_scenario(char *text, int logfd, const char *id) {
     vp_log_open(logfd);
+    vp_install_crash_flush();
     vp_logf("S %s\n", id);
     vp_log_flush();
     char *save = NULL;
